@@ -622,6 +622,7 @@ func ruleTimeParams(r *Run) {
 		// digit threshold
 		thr := int64(-1)
 		var thrCond *ssa.BinOp
+		thrNeg := false
 		allInstrs(pts, func(in ssa.Instruction) {
 			if b, ok := in.(*ssa.BinOp); ok {
 				if c, ok := b.X.(*ssa.Call); ok {
@@ -629,9 +630,13 @@ func ruleTimeParams(r *Run) {
 						if k, ok := constInt(b.Y); ok {
 							switch b.Op {
 							case token.LEQ:
-								thr, thrCond = k, b
+								thr, thrCond, thrNeg = k, b, false
 							case token.LSS:
-								thr, thrCond = k-1, b
+								thr, thrCond, thrNeg = k-1, b, false
+							case token.GTR: // the long (nanoseconds) spelling is tested first
+								thr, thrCond, thrNeg = k, b, true
+							case token.GEQ:
+								thr, thrCond, thrNeg = k-1, b, true
 							}
 						}
 					}
@@ -643,7 +648,7 @@ func ruleTimeParams(r *Run) {
 			ot.Fail(r.pos(pts.Pos()), "the seconds/nanoseconds digit threshold is %d; it must satisfy 10 <= T < 18", thr)
 		} else {
 			for _, short := range []bool{true, false} {
-				w := &feWalker{Fn: pts, Assume: map[ssa.Value]constant.Value{thrCond: constant.MakeBool(short)}}
+				w := &feWalker{Fn: pts, Assume: map[ssa.Value]constant.Value{thrCond: constant.MakeBool(short != thrNeg)}}
 				for _, e := range w.Run() {
 					if len(e.Results) != 2 {
 						continue
